@@ -210,7 +210,21 @@ let oracle_constraints (q : string) (impl : string) : string =
 let constraints_field (f : string list) : string option =
   List.fold_left (fun acc x -> if starts_with "Q:" x then Some (String.sub x 2 (String.length x - 2)) else acc) None f
 
+(* C15: every concurrent call returned what it returns alone; no worker died (race detector) *)
+let oracle_c15 (impl : string) : string =
+  match split_on '\t' impl with
+  | "CONC" :: _ :: "diff=0" :: _ -> "ok"
+  | "CONC" :: _ :: d :: msg :: _ -> "FAIL:concurrent results differ from the sequential baseline (" ^ d ^ "): " ^ unhex msg
+  | "CONC" :: "LOADFAIL" :: _ -> "FAIL:the tree did not load"
+  | "CRASH" :: _ -> "FAIL:worker process died during the concurrent run (data race reported by the race detector, or a crash)"
+  | "HANG" :: _ -> "FAIL:concurrent run did not return"
+  | "PANIC" :: _ -> "FAIL:panic during the concurrent run"
+  | _ -> "FAIL:unexpected observation"
+
 let oracle (f : string list) (impl : string) : string =
+  match f with
+  | _ :: "conc" :: _ -> oracle_c15 impl
+  | _ ->
   match constraints_field f with
   | Some q -> oracle_constraints q impl
   | None ->
